@@ -3,6 +3,7 @@ package kit
 import (
 	"fmt"
 	"sort"
+	"sync/atomic"
 	"time"
 
 	"github.com/openziti/storage/ast"
@@ -135,6 +136,37 @@ type ScanSchema struct {
 	// Twin is another store whose symbols have the same names as People's but other types (sa is a number there,
 	// ia a string ...): the same filter text means something else for it
 	Twin *boltz.BaseStore[boltz.Entity]
+	// ext is the application state behind the function symbols fx (string, may be null) and bx (bool) of the people
+	// store: nothing of it is stored in the database
+	ext atomic.Pointer[ExtState]
+}
+
+// ExtState is application state the function symbols of the people store compute their values from.
+type ExtState struct {
+	Fx map[string]*string
+	Bx map[string]bool
+}
+
+// SetExt replaces the application state behind fx / bx (nil: fx is "fx-"+id for ids ending in an even byte and null
+// for the others, bx is true for ids ending in an even byte).
+func (s *ScanSchema) SetExt(e *ExtState) { s.ext.Store(e) }
+
+func (s *ScanSchema) fx(id string) *string {
+	if e := s.ext.Load(); e != nil {
+		return e.Fx[id]
+	}
+	if len(id) == 0 || id[len(id)-1]%2 == 1 {
+		return nil
+	}
+	v := "fx-" + id
+	return &v
+}
+
+func (s *ScanSchema) bx(id string) bool {
+	if e := s.ext.Load(); e != nil {
+		return e.Bx[id]
+	}
+	return len(id) > 0 && id[len(id)-1]%2 == 0
 }
 
 // symbol layout helpers (variant bit 0: symbol name != bucket key; bit 1: some symbols under a prefix path)
@@ -175,6 +207,8 @@ func NewScanSchema(variant int) *ScanSchema {
 	p.AddFkSetSymbol("places", s.Places)
 	p.AddFkSetSymbol("peers", p)
 	p.AddMapSymbol("tags", ast.NodeTypeAnyType, "tags", s.prefixOf("tags")...)
+	p.AddEntitySymbol(boltz.NewStringFuncSymbol(p, "fx", s.fx))
+	p.AddEntitySymbol(boltz.NewBoolFuncSymbol(p, "bx", s.bx))
 
 	q := s.Places
 	q.AddIdSymbol("id", ast.NodeTypeString)
